@@ -231,7 +231,12 @@ type distBlockObs struct {
 }
 
 // step runs one distributor block with keeper k (the app's own or a faulty twin).
-func (e *distEnv) step(k distkeeper.Keeper, payoutFails func(key string) bool, sweepFails func(key string) bool) (obs distBlockObs) {
+func (e *distEnv) step(k distkeeper.Keeper, payoutFails func(key string) bool, sweepFails func(key string, attempt int) bool) (obs distBlockObs) {
+	return e.stepLazy(k, func() (func(string) bool, func(string, int) bool) { return payoutFails, sweepFails })
+}
+
+// stepLazy is step with the failure predicates determined after the real run.
+func (e *distEnv) stepLazy(k distkeeper.Keeper, preds func() (func(string) bool, func(string, int) bool)) (obs distBlockObs) {
 	e.block++
 	e.time = e.time.Add(5 * time.Second)
 	e.n.Time = e.time
@@ -251,6 +256,7 @@ func (e *distEnv) step(k distkeeper.Keeper, payoutFails func(key string) bool, s
 	obs.states = e.n.App.CfedistributorKeeper.GetAllStates(e.n.Ctx())
 	obs.mainBal = coinsOf(e.n.Ctx(), e.n, e.mainAddr)
 	// model
+	payoutFails, sweepFails := preds()
 	if payoutFails == nil {
 		payoutFails = func(key string) bool { return key == model.KBase+"-"+e.blocked }
 	}
